@@ -156,6 +156,8 @@ class CodeBuilder:
             self.attrs_registry = attrs_registry
         else:
             self.attrs_registry = {}
+        # the builder whose compilation required this one
+        self.outer: typing.Optional["CodeBuilder"] = None
 
     def reset(self) -> None:
         self.lines.reset()
